@@ -41,6 +41,23 @@ static void run_case(vh_ctx *c)
     if (constant) nconst++;
     for (i = 0; i < n; i++) LM(X, i, j) = constant ? (ld)loc : (ld)(loc + sc * vh_gauss(c));
   }
+  /* second build session: two regimes in which the preprocessed data (or a late residual) is small in ABSOLUTE terms although the
+     rank is full - nearly collinear columns, and columns far from the origin under RMS / level scaling (which divide by ~|location|) */
+  {
+  vh_ctx cc = *c;      /* a side stream: the draws of the older cases (and the recorded witness cases) stay what they were */
+  cc.s[0] ^= 0x9E3779B97F4A7C15ULL; cc.s[1] += 0x1234567ULL; (void)vh_u64(&cc); (void)vh_u64(&cc);
+  if (p >= 2 && n >= 4 && vh_coin(&cc, 0.08)) {
+    size_t j1 = (size_t)vh_int(&cc, 0, (long)p - 1), j2 = (j1 + 1 + (size_t)vh_int(&cc, 0, (long)p - 2)) % p; ld a = vh_range(&cc, 0.5, 2.0) * (vh_coin(&cc, 0.5) ? 1 : -1), m1 = 0, sd1 = 0, del;
+    for (i = 0; i < n; i++) { m1 += LM(X, i, j1); } m1 /= (ld)n;
+    for (i = 0; i < n; i++) { sd1 += (LM(X, i, j1) - m1) * (LM(X, i, j1) - m1); } sd1 = sqrtl(sd1 / (ld)(n - 1));
+    if (sd1 > 0) { del = sd1 * (ld)vh_logunif(&cc, -6, -3); for (i = 0; i < n; i++) LM(X, i, j2) = (scaling == 5 ? m1 : 0) + a * (LM(X, i, j1) - m1) + del * (ld)vh_gauss(&cc) + (scaling == 5 ? 0 : m1); vh_obs("cases_with_nearly_collinear_columns", 1); }
+  }
+  if ((scaling == 2 || scaling == 5) && vh_coin(&cc, 0.15)) {
+    for (j = 0; j < p; j++) { ld far = (vh_coin(&cc, 0.5) ? 1 : -1) * (ld)vh_logunif(&cc, 3, 5), m1 = 0, sd1 = 0; for (i = 0; i < n; i++) { m1 += LM(X, i, j); } m1 /= (ld)n; for (i = 0; i < n; i++) { sd1 += (LM(X, i, j) - m1) * (LM(X, i, j) - m1); } sd1 = sqrtl(sd1 / (ld)(n > 1 ? n - 1 : 1));
+      if (sd1 > 0) for (i = 0; i < n; i++) LM(X, i, j) += far * sd1 - m1; }
+    vh_obs("cases_with_columns_far_from_the_origin", 1);
+  }
+  }
   mx = matrix_of_ldm(X);
   for (i = 0; i < n; i++) for (j = 0; j < p; j++) LM(X, i, j) = mx->data[i][j];   /* oracle sees the doubles the library sees */
   mx_before = matrix_dup(mx);
